@@ -8,6 +8,7 @@ package main
 
 import (
 	"bufio"
+	"fmt"
 	"math/rand"
 	"os"
 	"strings"
@@ -49,6 +50,11 @@ func classOf(f func() (interface{}, error)) M {
 		return M{"t": "to", "v": "timeout"}
 	}
 }
+
+// deepMasks: for well-formed sources the evaluation entry points are also exercised under these option
+// subsets (each optimizer alone, none, all but one), panics and hangs only
+var deepMasks = []int{0, 1, 2, 4, 8, 7, 11, 13, 14}
+var totalDeep bool
 
 func totalObs(text string, mode totMode, wantTree bool) M {
 	l := &Log{Phase: "compile"}
@@ -115,6 +121,46 @@ func totalObs(text string, mode totMode, wantTree bool) M {
 				})
 				if c["t"] != "ok" && c["t"] != "e" {
 					calls = append(calls, M{"api": api, "e": ei + 1, "out": c["t"], "site": c["v"], "msg": c["msg"]})
+				}
+			}
+		}
+		if totalDeep {
+			for _, mask := range deepMasks {
+				ccm, _ := newConf(ConfOpts{Mask: mask, Undefined: mode.Undef, Infix: mode.Infix}, &Log{Phase: "compile"})
+				if mode.Undef {
+					for _, v := range varNames {
+						eval.GetOrRegisterKey(ccm, v)
+					}
+				}
+				var em *eval.Expr
+				pc := classOf(func() (interface{}, error) {
+					var err error
+					em, err = eval.Compile(ccm, text)
+					return nil, err
+				})
+				if pc["t"] != "ok" && pc["t"] != "e" {
+					calls = append(calls, M{"api": fmt.Sprint("compile@", mask), "e": 0, "out": pc["t"], "site": pc["v"], "msg": pc["msg"]})
+				}
+				if em == nil {
+					continue
+				}
+				for ei, env := range totEnvs {
+					for _, api := range []string{"eval", "tryeval", "evalbool"} {
+						api := api
+						c := classOf(func() (interface{}, error) {
+							ctx := &eval.Ctx{VariableFetcher: &Fetcher{Vals: env}}
+							switch api {
+							case "eval":
+								return em.Eval(ctx)
+							case "evalbool":
+								return em.EvalBool(ctx)
+							}
+							return em.TryEval(ctx)
+						})
+						if c["t"] != "ok" && c["t"] != "e" {
+							calls = append(calls, M{"api": fmt.Sprint(api, "@", mask), "e": ei + 1, "out": c["t"], "site": c["v"], "msg": c["msg"]})
+						}
+					}
 				}
 			}
 		}
@@ -229,7 +275,9 @@ func famTotal() {
 			continue
 		}
 		src := t.Src()
+		totalDeep = true
 		emitText(src, "valid", true)
+		totalDeep = false
 		rs := []rune(src)
 		for k := 0; k <= len(rs); k++ {
 			emitText(string(rs[:k]), "truncated", false)
@@ -260,6 +308,59 @@ func famTotal() {
 		strings.Repeat("1 + ", 20000) + "1", strings.Repeat("!", 1000) + "x", "f(" + strings.Repeat("1,", 200) + "1)",
 	} {
 		emitText(s, "special", false)
+	}
+	// (f) well-formed sources with a shape: wide same-kind groups that only ReduceNesting makes too wide,
+	// reserved words of the engine as string literals and as variable names in every operand position,
+	// long spines
+	totalDeep = true
+	fanOf := func(name, v string, n int) string {
+		return "(" + name + strings.Repeat(" "+v, n) + ")"
+	}
+	for _, ab := range [][2]int{{100, 100}, {64, 64}, {127, 1}, {126, 1}, {127, 127}, {3, 125}} {
+		for _, nm := range [][2]string{{"and", "and"}, {"or", "||"}, {"&&", "&"}} {
+			emitText("("+nm[0]+" "+fanOf(nm[1], "x", ab[0])+" "+fanOf(nm[0], "y", ab[1])+")", "shapes", false)
+			emitText("(not ("+nm[0]+" z "+fanOf(nm[1], "x", ab[0])+" "+fanOf(nm[0], "y", ab[1])+"))", "shapes", false)
+			emitText("(if ("+nm[0]+" "+fanOf(nm[1], "x", ab[0])+" "+fanOf(nm[0], "y", ab[1])+") 1 2)", "shapes", false)
+		}
+	}
+	for _, kw := range []string{"fi", "if", "DNE", "true", "false", "and", "or", "not", "eq", "nil", "K", "KT", "optimize"} {
+		for _, form := range []string{`"` + kw + `"`, kw} {
+			for _, tmpl := range []string{
+				"(not (and x (eq s @ s)))", "(or (and y (eq @ s s) x) z)", "(and x (eq s s @) y)", "(if (eq @ s) (and x (eq s @ s) y) z)",
+				"(and (in @ (\"a\" \"fi\")) x)", "(or x (if y (eq s @) (ne @ s)))", "(and x (or y (eq s @ s s)) (not z))", "(eq @ @ @)",
+			} {
+				emitText(strings.ReplaceAll(tmpl, "@", form), "shapes", false)
+			}
+		}
+	}
+	for _, d := range []int{8, 9, 16, 17, 33, 200} {
+		emitText(strings.Repeat("(and x (or y ", d)+"z"+strings.Repeat("))", d), "shapes", false)
+		emitText(strings.Repeat("(if x y ", d)+"z"+strings.Repeat(")", d), "shapes", false)
+		emitText(strings.Repeat("(+ n (if x ", d)+"1"+strings.Repeat(" 2))", d), "shapes", false)
+	}
+	totalDeep = false
+	// (g) contexts built by the library for key layouts at the edges of the key type
+	for _, keys := range [][]int{{0, 1}, {1, 255}, {1, 256}, {32766, 2}, {32767, 2}, {32767, 32766}, {-32768, 1}, {-1, 0}, {-2, -1}, {255, 0}, {1000, 2000}} {
+		id++
+		cc := eval.NewConfig()
+		cc.VariableKeyMap["x"], cc.VariableKeyMap["n"] = eval.VariableKey(keys[0]), eval.VariableKey(keys[1])
+		vals := map[string]interface{}{"x": true, "n": 3}
+		bad := []interface{}{}
+		note := func(api string, c M) {
+			if c["t"] != "ok" && c["t"] != "e" {
+				bad = append(bad, M{"api": api, "e": 0, "out": c["t"], "site": c["v"], "msg": c["msg"]})
+			}
+		}
+		var ctx *eval.Ctx
+		note("NewCtxFromVars", classOf(func() (interface{}, error) { ctx = eval.NewCtxFromVars(cc, vals); return nil, nil }))
+		e, err := eval.Compile(cc, "(and x (> n 0))")
+		if err == nil && ctx != nil {
+			note("eval", classOf(func() (interface{}, error) { return e.Eval(ctx) }))
+			note("tryeval", classOf(func() (interface{}, error) { return e.TryEval(ctx) }))
+		}
+		note("Eval+ExtendConf", classOf(func() (interface{}, error) { return eval.Eval("(and x (> n 0))", vals, eval.ExtendConf(cc)) }))
+		note("Eval", classOf(func() (interface{}, error) { return eval.Eval("(and x (> n 0))", vals) }))
+		emit(M{"fam": "total", "for": "C06", "kind": "ctx", "id": id, "src": fmt.Sprint("library context for keys ", keys), "bad": bad, "ncalls": 5})
 	}
 	// (e) single-operator calls over the whole value universe
 	ops := []string{"add", "sub", "mul", "div", "mod", "+", "-", "*", "/", "%", "and", "or", "xor", "not", "&", "|", "!",
